@@ -45,9 +45,9 @@ CLAIMS = {
         "note": "Trusted: std binary_search_by_key contract. from_tag is checked on a fixed list of tags only (one call costs CBMC 20-60 s): the full table and arbitrary tag strings are NOT covered; this part is labelled bounded and not counted as proved.",
     },
     "C10": {
-        "technique": "Verus: PropertySet set/set_codepage/get/remove/codepage and 29 SummaryInfo setters/getters/clearers against a map view (vstd BTreeMap model), code-page coherence incl. the signed 16-bit storage; Kani complete harnesses: bytes written by PropertyValue::write == encoded_size_including_padding for every value type with the code-page encoder replaced by arbitrary bytes",
-        "text": "Unbounded proof of the in-memory property map behaviour (any order of setters/clearers, frame: only the named property changes, code page = the one last set, creation time = T/B conversion), and complete proof of the per-value size/alignment/round-trip obligations the offsets rest on.",
-        "note": "Trusted: vstd BTreeMap model; Timestamp conversion contracts imported from group timestamp (proved there). Not covered: PropertySet::write/read over the real BTreeMap (bounded Kani harness, thorough tier only), arch/languages template split/merge, uuid, string setters' Into<String> conversion, save/reopen through cfb.",
+        "technique": "Verus: PropertySet set/set_codepage/get/remove/codepage and 29 SummaryInfo setters/getters/clearers against a map view; PropertySet::write proved against the property-set layout (48-byte header, exact section size, (id, offset) table, every offset at its value's type tag, 4-byte alignment, flush) and PropertySet::read / PropertyValue::read proved against the same format for arbitrary bytes; PropertyValue::write emits exactly encoded_size_including_padding bytes in the code page in force; Kani complete harnesses cross-check the per-value obligations",
+        "text": "Unbounded proof of the in-memory property map behaviour (any order of setters/clearers, frame, code page = the one last set incl. the signed 16-bit storage, creation time = T/B conversion) and of the saved stream's layout and its reader (any number of properties, any string lengths).",
+        "note": "Trusted: vstd BTreeMap model; BTreeMap iteration order is a function of the map (one assume in prelude/btree.rs: std documents ascending key order); the code-page encoder/decoder are uninterpreted functions; Timestamp conversion contracts imported from group timestamp (proved there). Not covered: that reading back what was written yields the same set as ONE lemma (writer and reader are each proved against the format), arch/languages template split/merge, uuid, string setters' Into<String> conversion, save/reopen through cfb.",
     },
     "C01": {
         "technique": "Kani complete harnesses for each encode/decode pair (cells, string references, type word, property values, timestamps, code-page ids) + Verus proof of the pool reference accounting (decref, get, ValueRef::create/remove with the 'no live empty string' invariant) + bounded Kani for pool stream header/entries and incref",
@@ -55,9 +55,9 @@ CLAIMS = {
         "note": "Not covered: finisher/flush/drop logic, crash points, Package::open's reconstruction, save/reopen idempotence, streams, row layout (bounded harness in thorough tier) -- all need the cfb container. Assumed: cfb stores stream bytes faithfully. Trusted: StringPool::incref contract in the Verus group (checked bounded by Kani, 2 slots).",
     },
     "C02": {
-        "technique": "Kani harnesses of each reader ALONE against a format specification written in the harness (cells, references, type word on every i32, pool header with long-ref bit and long-string escape, pool data, property values on arbitrary bytes); Verus proof of streamname::decode against the format's decoder",
-        "text": "Complete (value-domain) or bounded (stream length) proof that each reader decodes what the format says, independently of the library's writers.",
-        "note": "Not covered: the composition in Package::open, absent _Validation, row layout (thorough tier, bounded), PropertySet::read over BTreeMap (thorough), 'changes preserve untouched content'.",
+        "technique": "Verus: each reader proved ALONE against a format specification for arbitrary input of any length (string references, cells, timestamps, property values incl. strings, the _StringPool stream incl. long-reference bit and long-string escape, whole property sets with arbitrary property order/offsets), streamname::decode against the format's decoder; Kani complete harnesses for the type word on every i32, code-page ids, category names",
+        "text": "Unbounded proof that each reader decodes exactly what the format says, independently of the library's writers.",
+        "note": "Trusted: the in-memory stream model VSource (a read succeeds iff enough bytes are left); code-page decoding is an uninterpreted total function; BTreeMap model of vstd. Not covered: the composition in Package::open, absent _Validation, Table::read_rows (closure in sum(), Seek), 'changes preserve untouched content' (exec / cfb).",
     },
     "C08": {
         "technique": "Kani complete harnesses of each writer against the format (offset-binary cells, reference widths incl. refusal above 16 bits, type mismatch is an error) + Verus proof of pool accounting: decref/create/remove adjust exactly one count, clear text at zero, leave other slots untouched, keep 'unused entries empty / no live empty string'",
@@ -65,16 +65,16 @@ CLAIMS = {
         "note": "Not covered: that Delete/Update::exec and drop_table release one reference per cell (read: drop_table does not -- out of reach), catalog tables, write_rows/write_pool stream layout beyond the bounded harnesses.",
     },
     "C09": {
-        "technique": "Panic-freedom as proof obligations: Kani harnesses feeding arbitrary bytes to each reader (no failing panic/overflow/index check), Verus safety obligations on get/refcount/decode/timestamp conversion",
-        "text": "Complete or bounded proof that the readers in reach return Ok or Err on every input and never panic.",
-        "note": "Not covered: Package::open's unwrap()s on catalog cells (read: a null _Tables.Name panics), decref/incref preconditions at exec call sites, the FFI expect, allocation failure for huge declared lengths (verifiers model allocation as succeeding), Table::read_rows, PropertySet::read (thorough tier).",
+        "technique": "Panic-freedom as proof obligations: Verus safety obligations (index, overflow, unwrap, slice, division) on the extracted bodies of every reader in reach for arbitrary input of any length (StringRef::read, read_value, Timestamp::read_from, PropertyValue::read, PropertySet::read, read_from_pool, build_from_data, StringPool::get/refcount, streamname::decode, timestamp conversion), plus Kani complete harnesses (type word, Language::tag over all codes)",
+        "text": "Unbounded proof that the readers in reach return Ok or Err on every input and never panic.",
+        "note": "Not covered: Package::open's unwrap()s on catalog cells (read: a null _Tables.Name panics), decref/incref preconditions at exec call sites, the FFI expect, allocation failure for huge declared lengths (verifiers model allocation as succeeding), Table::read_rows, hangs.",
     },
 }
 
 CLAIMS["C15"] = {
-    "technique": "Verus postcondition `Ok ==> committed == bytes.len()` on the extracted bodies of Table::write_rows, StringPool::write_pool and write_data, with the generic writer instantiated by a sink that separates accepted from committed bytes and lets every call fail",
-    "text": "Unbounded proof (any number of rows/columns/pool entries, any failure point) that three of the four stream serializers report success only after a successful flush following their last write and propagate every writer error. This is the serializer-level part of the statement only.",
-    "note": "Trusted: the VSink model of Write (prelude/sink.rs); X3b instantiation of the by-value writer with &mut VSink. NOT covered: PropertySet::write, FinishImpl::finish / Package::flush / into_inner propagation, user-held StreamWriters, failing reads/seeks, cfb itself -- the package-level statement is NOT decided.",
+    "technique": "Verus postcondition `Ok ==> committed == bytes.len()` on the extracted bodies of Table::write_rows, StringPool::write_pool, write_data and PropertySet::write, with the generic writer instantiated by a sink that separates accepted from committed bytes and lets every call fail",
+    "text": "Unbounded proof (any number of rows/columns/pool entries/properties, any failure point) that all four stream serializers report success only after a successful flush following their last write and propagate every writer error. This is the serializer-level part of the statement only.",
+    "note": "Trusted: the VSink model of Write (prelude/sink.rs); X3b instantiation of the by-value writer with &mut VSink. NOT covered: FinishImpl::finish / Package::flush / into_inner propagation, user-held StreamWriters, failing reads/seeks, cfb itself -- the package-level statement is NOT decided.",
 }
 
 NOT_APPLICABLE = {
